@@ -12,7 +12,7 @@ import (
 var (
 	genAllowEls  = []string{"b", "i", "p", "div", "span", "a", "img", "br", "hr", "table", "tr", "td", "ul", "li", "blockquote", "q", "pre", "code", "h1", "details", "del", "area", "link", "audio", "video", "source", "input", "bdo", "meter"}
 	genPatEls    = []string{"custom-x", "custom-y", "x-foo", "x-bar"}
-	genOtherEls  = []string{"blink", "form", "font", "center", "section", "nav", "em"}
+	genOtherEls  = []string{"blink", "form", "font", "center", "section", "nav", "em", "d\u0130v", "l\u0130", "scr\u0130pt", "t\u0130tle", "l\u0130n\u212a"}
 	genSkipEls   = []string{"object", "iframe", "noscript", "title", "frameset", "frame", "noembed", "noframes", "nostyle"}
 	genUnsafeEls = []string{"script", "style"}
 	genRawEls    = []string{"textarea", "xmp"}
@@ -160,7 +160,7 @@ func GenRecipe(r *rand.Rand, o GenOpts) Recipe {
 			add(Call{M: "AddSpaceWhenStrippingTag", B: r.Intn(4) != 0})
 		case 11:
 			if r.Intn(2) == 0 {
-				add(Call{M: "SkipElementsContent", Names: maybeUpper(r, pickN(r, append(append([]string{}, genOtherEls...), "b", "div", "textarea"), 2))})
+				add(Call{M: "SkipElementsContent", Names: maybeUpper(r, pickN(r, append(append([]string{}, genOtherEls[:7]...), "b", "div", "textarea"), 2))})
 			} else {
 				add(Call{M: "AllowElementsContent", Names: maybeUpper(r, pickN(r, append(append([]string{}, genSkipEls...), genUnsafeEls...), 3))})
 			}
